@@ -391,11 +391,83 @@ fn run_reflect(c: &Value) -> Value {
   }
 }
 
+/// Early data: the server has a message ready the moment its handshake completes, so its last handshake bytes (its
+/// READY) and the first encrypted data record reach the client in ONE read (join = true) or in separate reads
+/// (join = false); `cut` > 0 additionally cuts the joined chunk that many bytes after the start.
+/// rows: [[63, handshake reached Data on both sides, messages delivered to the client], [7, ...] per delivered frame]
+fn run_early(c: &Value) -> Value {
+  let (mut cl, mut sv) = mk_pair(c);
+  let mut to_s = sends(&cl.start());
+  let mut to_c = sends(&sv.start());
+  let mut rows: Vec<Vec<u64>> = Vec::new();
+  let mut delivered = 0u64;
+  let mut frames: Vec<Vec<u64>> = Vec::new();
+  let mut injected = false;
+  let join = c.get("join").and_then(|v| v.as_bool()).unwrap_or(true);
+  let cut = c.get("cut").and_then(|v| v.as_u64()).unwrap_or(0) as usize;
+  let mut feed_client = |cl: &mut ZmtpEngine, d: Vec<u8>, to_s: &mut Vec<u8>| {
+    let out = cl.on_network_bytes(Bytes::from(d));
+    to_s.extend(sends(&out));
+    for a in &out.app_actions {
+      if let AppAction::DeliverMessage(fb) = a {
+        delivered += 1;
+        for m in fb {
+          frames.push(msg_row(m));
+        }
+      }
+    }
+  };
+  for _ in 0..64 {
+    let mut progressed = false;
+    if !to_s.is_empty() {
+      let d = std::mem::take(&mut to_s);
+      let out = sv.on_network_bytes(Bytes::from(d));
+      to_c.extend(sends(&out));
+      progressed = true;
+      if sv.phase == ZmtpPhase::Data && !injected {
+        // the server's application sends at once
+        injected = true;
+        let rec = sends(&sv.on_app_message(frames_of(&c["msg"])));
+        if join {
+          let mut all = std::mem::take(&mut to_c);
+          all.extend(rec);
+          if cut > 0 && cut < all.len() {
+            let tail = all.split_off(cut);
+            feed_client(&mut cl, all, &mut to_s);
+            feed_client(&mut cl, tail, &mut to_s);
+          } else {
+            feed_client(&mut cl, all, &mut to_s);
+          }
+        } else {
+          let hs = std::mem::take(&mut to_c);
+          feed_client(&mut cl, hs, &mut to_s);
+          feed_client(&mut cl, rec, &mut to_s);
+        }
+        continue;
+      }
+    }
+    if !to_c.is_empty() {
+      let d = std::mem::take(&mut to_c);
+      feed_client(&mut cl, d, &mut to_s);
+      progressed = true;
+    }
+    if !progressed {
+      break;
+    }
+  }
+  let ok = cl.phase == ZmtpPhase::Data && sv.phase == ZmtpPhase::Data && injected;
+  rows.push(vec![63, ok as u64, delivered]);
+  rows.extend(frames);
+  let sent: Vec<Vec<u64>> = frames_of(&c["msg"]).iter().map(|m| msg_row(m)).collect();
+  json!({"rows": rows, "hs": ok, "sent": sent})
+}
+
 pub fn run_case(c: &Value) -> Value {
   match c["k"].as_str().unwrap() {
     "flow" => run_flow(c),
     "sessions" => run_sessions(c),
     "reflect" => run_reflect(c),
+    "early" => run_early(c),
     other => panic!("unknown C18 case kind {other}"),
   }
 }
